@@ -5,6 +5,7 @@ Gap/search: evaluation of the weights at random directions incl. poles (= c, = v
 axis, rotation of the weights by conj(R) vs rotation of the vector by R."""
 import math
 
+import itertools
 import numpy as np
 
 from .. import helpers
@@ -97,17 +98,29 @@ def check(run):
             if not np.allclose(v2.real, want, rtol=0, atol=32 * EPS * max(float(np.max(np.abs(vr))), 1e-300)) or not np.allclose(v2.imag, 0, atol=32 * EPS * max(float(np.max(np.abs(vr))), 1e-300)):
                 run.violation("vector-rotation", f"rotate[horner={horner}]", {**inp, "R": list(R.ndarray), "calculator": nm}, str(want), str(v2))
     # arrays of vectors / constants along the last axis
-    for shape in [(2,), (2, 3), (1, 2, 2)]:
-        V = np.array([rng.gauss(0, 1) for _ in range(int(np.prod(shape)) * 3)]).reshape(shape + (3,))
+    # memory layouts of the array of vectors: C order, Fortran order, a transposed view of the leading axes, a strided view, a reversed view
+    layouts = [("C", lambda A: A), ("F", np.asfortranarray), ("swapped-leading-axes", lambda A: np.ascontiguousarray(np.swapaxes(A, 0, -2)).swapaxes(0, -2) if A.ndim >= 3 else A),
+               ("strided", lambda A: np.repeat(A, 2, axis=0)[::2]), ("reversed", lambda A: A[::-1][::-1] if A.ndim < 2 else np.ascontiguousarray(A[..., ::-1])[..., ::-1])]
+    for shape, (lname, lay) in itertools.product([(2,), (2, 3), (1, 2, 2), (3, 2), (2, 3, 4)], layouts):
+        V = lay(np.array([rng.gauss(0, 1) for _ in range(int(np.prod(shape)) * 3)]).reshape(shape + (3,)))
+        assert V.shape == shape + (3,)
+        V0 = V.copy()
         Wv = spherical.vector_as_ell_1_modes(V)
-        run.gap_case("arrays", shape, "arrays")
+        run.gap_case("arrays", (shape, lname), f"arrays|{lname}|ndim={len(shape) + 1}")
+        if not np.array_equal(V, V0):
+            run.violation("vector-array-input-modified", "vector_as_ell_1_modes", {"shape": list(shape), "layout": lname}, "input untouched", "modified")
+        Wl = lay(np.ascontiguousarray(Wv)) if Wv.shape == shape + (3,) else None
+        if Wl is not None:
+            Vl = spherical.vector_from_ell_1_modes(Wl)
+            if Vl.shape != shape + (3,) or not np.allclose(Vl, V0, atol=1e-15):
+                run.violation("vector-array-round-trip", "vector_from_ell_1_modes", {"shape": list(shape), "layout": lname, "V": V0.tolist()}, "input", "differs")
         if Wv.shape != shape + (3,):
             run.violation("vector-array-shape", "vector_as_ell_1_modes", {"shape": list(shape)}, list(shape + (3,)), list(Wv.shape))
             continue
         flat = V.reshape(-1, 3)
         for i in range(flat.shape[0]):
             if not np.array_equal(Wv.reshape(-1, 3)[i], spherical.vector_as_ell_1_modes(flat[i])):
-                run.violation("vector-array-differs-from-single", "vector_as_ell_1_modes", {"shape": list(shape), "i": i}, "per-vector result", "differs")
+                run.violation("vector-array-differs-from-single", "vector_as_ell_1_modes", {"shape": list(shape), "layout": lname, "i": i, "V": V0.tolist()}, "per-vector result", "differs")
         Vb = spherical.vector_from_ell_1_modes(Wv)
         if Vb.shape != shape + (3,) or not np.allclose(Vb, V, atol=1e-15):
             run.violation("vector-array-round-trip", "vector_from_ell_1_modes", {"shape": list(shape)}, "input", "differs")
